@@ -165,4 +165,16 @@ def World.qDeleteEdge (w : World) (k e : Nat) : World × Bool :=
     ({ w with store := (w.store.deleteEdgeAt e ep).1 }, true)
   else (w, false)
 
+/-- `MERGE (n:L)`: the match sees the session's snapshot (`get_node_versioned` over the label index);
+a node the merge creates carries the statement's write stamp. The write epoch is taken while
+planning, whether or not the merge ends up creating. Result: `none` = matched. -/
+def World.qMerge (w : World) (k l : Nat) : World × Option Nat :=
+  let (ep0, tx0) := w.ctx k
+  let (w1, wep, wtx) := w.writeCtx k
+  let cands := (w1.store.nodesByLabel l).filter (fun id => (w1.store.getNodeTo id ep0 tx0).isSome)
+  if cands.isEmpty then
+    let (s', id) := w1.store.createNode [l] wep wtx
+    ({ w1 with store := s' }, some id)
+  else (w1, none)
+
 end Grafeo.Sess
